@@ -163,6 +163,11 @@ def check_fast_guard(project: Project, rep):
     if bad is not None and I.lossy:
         rep.unmodelled("PI-FAST", fi, node, f"the dispatch could not be followed exactly ({I.lossy[0]['why']})")
         return
+    opaque = sorted({x[1] for c, _ in seen["fast"] for x in sym.walk(c) if x[0] == "opq"})
+    if bad is not None and opaque:
+        rep.unmodelled("PI-FAST", fi, node, f"the guard of the isotropic path contains a test the evaluator could not read "
+                                            f"({', '.join(opaque)[:80]}): no verdict")
+        return
     if bad is None:
         rep.discharged("PI-FAST", fi, node, "the isotropic closed form is reached only for equal variances and zero covariance "
                                             "(every other covariance goes to the kernel itself)")
